@@ -681,7 +681,10 @@ def pyLex (v : PyVal) (dt : Option Dt) : Option Str :=
   | .datetime y m d h mi s us tz => some (datetimeIso y m d h mi s us tz)
   | .date y m d => some (dateIso y m d)
   | .time h mi s us tz => some (timeIso h mi s us tz)
-  | .duration y m us => durationIso y m us true
+  | .duration y m us =>
+    -- specific rule (Duration, yearMonthDuration): the zero duration is written P0M
+    if dt == some .yearMonthDuration && (y == 0 && m == 0 && us == 0) then some ['P', '0', 'M']
+    else durationIso y m us true
   | .timedelta us =>
     -- specific rule (timedelta, yearMonthDuration): the zero duration is written P0M
     if dt == some .yearMonthDuration && us == 0 then some ['P', '0', 'M']
